@@ -3,6 +3,7 @@
 pub mod crypto;
 pub mod der;
 pub mod gcc;
+pub mod ntlm;
 pub mod per;
 pub mod planar;
 pub mod rd;
